@@ -833,6 +833,106 @@ def rule_h(ctx: Context, R: Reporter):
     R.check("C08.h", f"scanned {n} attribute assignments of {len(classes)} classes reachable from the pickled object", True, None, None, key="scan", loc="tempest/")
 
 
+# ------------------------------------------------------------------ C08.i
+def _keys_of_store(fi: FuncInfo, k: ast.expr) -> Optional[Set[str]]:
+    """Constant string keys a store `d[k] = ...` / `d.pop(k)` can address: a
+    literal, or a loop variable ranging over a literal tuple/list of strings, or
+    over a caller-supplied parameter (the caller's explicit choice; its literal
+    default is included).  None = computed."""
+    if isinstance(k, ast.Constant):
+        return {k.value} if isinstance(k.value, str) else set()
+    if isinstance(k, ast.Name):
+        for n in walk_no_nested(fi.node):
+            if isinstance(n, (ast.For, ast.comprehension)) and isinstance(n.target, ast.Name) and n.target.id == k.id:
+                its = [n.iter]
+                if isinstance(n.iter, ast.Name) and n.iter.id in fi.module.constants:
+                    its = [fi.module.constants[n.iter.id]]
+                elif isinstance(n.iter, ast.Name) and n.iter.id in fi.params:
+                    # caller-supplied; plus every literal the function itself assigns to it
+                    its = [a.value for a in walk_no_nested(fi.node) if isinstance(a, ast.Assign) and len(a.targets) == 1 and isinstance(a.targets[0], ast.Name) and a.targets[0].id == n.iter.id]
+                    dflt = fi.param_default(n.iter.id)
+                    if dflt is not None and not (isinstance(dflt, ast.Constant) and dflt.value is None):
+                        its.append(dflt)
+                out: Set[str] = set()
+                for it in its:
+                    if isinstance(it, (ast.Tuple, ast.List, ast.Set)) and all(isinstance(e, ast.Constant) and isinstance(e.value, str) for e in it.elts):
+                        out |= {e.value for e in it.elts}
+                    else:
+                        return None
+                return out
+    return None
+
+
+def rule_i(ctx: Context, R: Reporter):
+    """The exported state sections reach the file, and the imported ones reach
+    the state object, untouched: neither the checkpoint writer nor the loader
+    re-binds (`d['_history'] = f(...)`), deletes or pops a section exported by the
+    state class. A conversion on the way (dtype cast, rounding, compression,
+    sub-selection) makes the restored state differ from the saved one."""
+    exp, dlit = exporter(ctx)
+    exported = {k.value for k in dlit.keys if isinstance(k, ast.Constant)}
+    imports = mutating_imports(ctx)
+    n = 0
+    sites = []
+    for (fi, dump, nm) in dumpers(ctx):
+        obj = call_arg(dump, 0, "obj")
+        if isinstance(obj, ast.Name):
+            sites.append((fi, obj.id, "writer"))
+    for (fi, call, nm) in loaders(ctx):
+        flow = flow_of(fi.node)
+        ln = flow.node_containing(call)
+        for d in flow.defs_at.get(ln.id, []):
+            sites.append((fi, d.name, "loader"))
+    R.floor("C08.i", "checkpoint writer / loader payload variables", len(sites), 2)
+    for (fi, var, role) in sites:
+        n += 1
+        bad = []
+        for x in walk_no_nested(fi.node):
+            if isinstance(x, ast.Subscript) and isinstance(x.value, ast.Name) and x.value.id == var and isinstance(x.ctx, (ast.Store, ast.Del)):
+                ks = _keys_of_store(fi, x.slice)
+                if ks is None or ks & exported:
+                    bad.append((x, sorted(ks & exported) if ks else "a computed key"))
+            if isinstance(x, ast.Call) and isinstance(x.func, ast.Attribute) and isinstance(x.func.value, ast.Name) and x.func.value.id == var and x.func.attr in ("pop", "update", "clear", "popitem", "setdefault"):
+                a0 = x.args[0] if x.args else None
+                if x.func.attr in ("pop", "setdefault") and a0 is not None:
+                    ks = _keys_of_store(fi, a0)
+                    if ks is not None and not (ks & exported):
+                        continue
+                if x.func.attr == "update" and isinstance(a0, ast.Dict) and all(isinstance(k, ast.Constant) and k.value not in exported for k in a0.keys):
+                    continue
+                if x.func.attr == "update" and not x.args and all(k.arg is not None and k.arg not in exported for k in x.keywords):
+                    continue
+                bad.append((x, f".{x.func.attr}()"))
+        # the payload itself must be the exporter's result / the loaded object, not a transformed copy
+        flow = flow_of(fi.node)
+        for ds_ in flow.defs_at.values():
+            for d in ds_:
+                if d.name != var or d.kind != "assign" or d.value is None:
+                    continue
+                v = d.value
+                if role == "writer":
+                    okv = isinstance(v, ast.Dict) or (isinstance(v, ast.Call) and exp in ctx.res.call_targets(fi, v))
+                else:
+                    okv = isinstance(v, ast.Call) and (ctx.res.external_name(fi, v) or "") in ("dill.load", "pickle.load", "dill.loads", "pickle.loads")
+                if not okv:
+                    bad.append((v, "re-bound payload"))
+        R.check("C08.i", f"{fi.short}: exported state sections pass through the checkpoint {role} untouched", not bad, fi, bad[0][0] if bad else fi.node,
+                msg=f"{fi.short}: `{unparse(bad[0][0])[:70] if bad else ''}` rewrites {bad[0][1] if bad else ''} of the checkpoint payload `{var}` between the state object and the file: "
+                    f"what is restored is no longer exactly what was saved (lossy casts / filtered history)", key=f"payload-untouched:{role}:{fi.short}")
+    # ... and the payload handed to the in-place import is that variable itself
+    for (fi, call, nm) in loaders(ctx):
+        flow = flow_of(fi.node)
+        ln = flow.node_containing(call)
+        names = {d.name for d in flow.defs_at.get(ln.id, [])}
+        for c in calls_in(fi.node):
+            tg = [t for t in ctx.res.call_targets(fi, c) if isinstance(t, FuncInfo)]
+            if any(t in imports.values() for t in tg):
+                a0 = call_arg(c, 0, "state_dict")
+                ok = isinstance(a0, ast.Name) and a0.id in names
+                R.check("C08.i", f"{fi.short}: the in-place import receives the loaded object itself", ok, fi, c,
+                        msg=f"{fi.short}: `{unparse(c)[:70]}` imports `{unparse(a0) if a0 is not None else '?'}`, not the object read from the file", key=f"import-arg:{fi.short}")
+
+
 def const_is_none(e) -> bool:
     return isinstance(e, ast.Constant) and e.value is None
 
@@ -846,6 +946,7 @@ def run(ctx: Context, R: Reporter):
     R.guard(rule_d, ctx, R)
     R.guard(rule_e, ctx, R)
     R.guard(rule_f, ctx, R)
+    R.guard(rule_i, ctx, R)
 
 
 def variants():
@@ -854,6 +955,10 @@ def variants():
     core = "tempest/core.py"
     sm = "tempest/state_manager.py"
     return [
+        Variant("i-float32-history", "bad", insert_after(core, "SamplerCore.save_sampler_state", "d = self.state.to_dict()", "d['_history'] = {k: [np.asarray(a, dtype=np.float32) for a in v] for k, v in d['_history'].items()}"), ["C08.i"], quick=True),
+        Variant("i-loader-filters", "bad", insert_before(core, "SamplerCore.load_sampler_state", "self.state.update_from_dict(d)", "for sec in ('_current', '_history'):\n    d[sec] = dict(d[sec])"), ["C08.i"]),
+        Variant("i-loader-imports-copy", "bad", replace_stmt(core, "SamplerCore.load_sampler_state", "self.state.update_from_dict(d)", "self.state.update_from_dict({k: v for k, v in d.items() if k != 'n_dim'})"), ["C08.i", "C08.a", "C08.d"]),
+        Variant("i-extra-metadata-benign", "benign", insert_after(core, "SamplerCore.save_sampler_state", "d = self.state.to_dict()", "d['format_version'] = 2")),
         Variant("a-discard-factory", "bad", replace_stmt(core, "SamplerCore.load_sampler_state", "self.state.update_from_dict(d)", "self.state.from_dict(d)"), ["C08.a"], quick=True),
         Variant("a-import-only-on-one-branch", "bad", replace_stmt(core, "SamplerCore.load_sampler_state", "self.state.update_from_dict(d)", "if 'n_total' in d:\n    self.state.update_from_dict(d)"), ["C08.a"]),
         Variant("b-frozen-store", "bad", insert_before(core, "SamplerCore.save_sampler_state", "d = self.state.to_dict()", "self.config.pool = None"), ["C08.b"], quick=True),
